@@ -142,7 +142,7 @@ pub fn gen_macros<R: Src>(r: &mut R, cfg: &GenCfg) -> Program {
          }
       }
       let name = MAC_NAMES[defs.len()].to_string();
-      defs.push(MacroDef { name: name.clone(), params, body, head: vec![], is_head: false });
+      defs.push(MacroDef { name: name.clone(), params, body, head: vec![], is_head: false, trailing_comma: false });
       let mut new_body = rule.body[..start].to_vec();
       new_body.push(BodyItem::MacroCall { name, args: call_args });
       new_body.extend_from_slice(&rule.body[start + seg_len..]);
@@ -181,7 +181,7 @@ pub fn gen_macros<R: Src>(r: &mut R, cfg: &GenCfg) -> Program {
          // "hard" ones have been bound by the inner macro
          let body = vec![call, BodyItem::Clause { rel, args: extra_args, conds: vec![] }];
          let name = MAC_NAMES[defs.len()].to_string();
-         defs.push(MacroDef { name, params, body, head: vec![], is_head: false });
+         defs.push(MacroDef { name, params, body, head: vec![], is_head: false, trailing_comma: false });
       }
    }
    prog.macros = defs.clone();
@@ -303,6 +303,7 @@ pub fn gen_macros<R: Src>(r: &mut R, cfg: &GenCfg) -> Program {
             body: vec![mk(&da, ir, "p0", jr), mk(&db, ls, "p1", ks)],
             head: vec![],
             is_head: false,
+            trailing_comma: false,
          };
          prog.macros.push(hop.clone());
          let call = |a: &str, b: &str| BodyItem::MacroCall {
@@ -327,6 +328,7 @@ pub fn gen_macros<R: Src>(r: &mut R, cfg: &GenCfg) -> Program {
                body: vec![BodyItem::Disj(vec![vec![call("$p0", &wlocal)], alt("$p0", &wlocal)]), call(&wlocal, "$p1")],
                head: vec![],
                is_head: false,
+               trailing_comma: false,
             });
          }
          let has_wrap = prog.macros.iter().any(|m| m.name == "hopw");
@@ -343,6 +345,7 @@ pub fn gen_macros<R: Src>(r: &mut R, cfg: &GenCfg) -> Program {
                },
                head: vec![],
                is_head: false,
+               trailing_comma: false,
             });
          }
          for _ in 0..r.range(2, 4) {
@@ -431,6 +434,7 @@ pub fn gen_macros<R: Src>(r: &mut R, cfg: &GenCfg) -> Program {
          body: vec![],
          head: vec![HeadItem::Clause { rel: h1, args: a1 }, HeadItem::Clause { rel: h2, args: a2 }],
          is_head: true,
+         trailing_comma: false,
       });
       // use it in 1-2 rules
       for _ in 0..r.range(1, 2) {
@@ -445,6 +449,11 @@ pub fn gen_macros<R: Src>(r: &mut R, cfg: &GenCfg) -> Program {
             body,
          });
       }
+   }
+   // a comma after the last item of a macro body is legal and must not change what an invocation expands to, wherever
+   // the invocation sits (last item of another macro's body, of a disjunct, of a head list)
+   for m in prog.macros.iter_mut() {
+      m.trailing_comma = r.chance(40);
    }
    prog
 }
